@@ -93,8 +93,12 @@ def a_start_starts(v):
     """a starting report (requested / scheduled / delayed / running / pending) on a fresh record, or on
     a record re-staged for a retry, is taken as reported: an offered attempt that the provider
     acknowledges is in flight from then on, whether it is the first attempt or a retried one"""
-    return IMPLIES(AND(IN(v["cur"], [st.UNSET, st.RETRYING]), IN(v["ev"], st.STARTING_STATUSES), v["is_action"]),
-                   EQ(v["new"], v["ev"]))
+    return AND(IMPLIES(AND(IN(v["cur"], [st.UNSET, st.RETRYING]), IN(v["ev"], st.STARTING_STATUSES), v["is_action"]),
+                       EQ(v["new"], v["ev"])),
+               # ... and so is the acknowledgement of a paused task that continues (its next item, or its
+               # action resumed by the provider)
+               IMPLIES(AND(EQ(v["cur"], st.PAUSED), IN(v["ev"], [st.REQUESTED, st.SCHEDULED, st.DELAYED, st.RUNNING]), v["is_action"]),
+                       EQ(v["new"], v["ev"])))
 
 
 def a_closed(v):
